@@ -173,3 +173,36 @@ Qed.
 
 Lemma desc_know B x y : know B x -> desc x y -> know B y.
 Proof. intros Hx Hd. induction Hd; [exact Hx | apply know_L; assumption | apply know_R; assumption]. Qed.
+
+(* ---- no signature material in the buffer ---- *)
+(* what a key buffer contains: wiped slots, public keys, and descendants of the key's seed *)
+Lemma key_at_slots n : forall s t x,
+  In x (key_at n s t) -> x = Zero \/ (exists m a, x = pk_tree m a) \/ desc s x.
+Proof.
+  induction n as [|n IH]; intros s t x Hin; cbn [key_at] in Hin.
+  - destruct Hin as [<-|[]]. right; right. apply desc_refl.
+  - destruct (t <? total n); apply in_app_or in Hin as [Hin|Hin].
+    + destruct (IH _ _ _ Hin) as [H|[H|H]]; [left; exact H | right; left; exact H |].
+      right; right. apply desc_trans with (L s); [apply desc_L, desc_refl | exact H].
+    + cbn [In] in Hin. destruct Hin as [<-|[<-|[<-|[]]]].
+      * right; right. apply desc_R, desc_refl.
+      * right; left. eexists; eexists; reflexivity.
+      * right; left. eexists; eexists; reflexivity.
+    + destruct (IH _ _ _ Hin) as [H|[H|H]]; [left; exact H | right; left; exact H |].
+      right; right. apply desc_trans with (R s); [apply desc_R, desc_refl | exact H].
+    + cbn [In] in Hin. destruct Hin as [<-|[<-|[<-|[]]]].
+      * left; reflexivity.
+      * right; left. eexists; eexists; reflexivity.
+      * right; left. eexists; eexists; reflexivity.
+Qed.
+
+Lemma key_at_no_sig n s t sk m : is_seed s = true -> ~ In (SigR sk m) (key_at n s t).
+Proof.
+  intros Hs Hin. destruct (key_at_slots _ _ _ _ Hin) as [H|[(k & a & H)|H]].
+  - discriminate.
+  - destruct k; discriminate.
+  - inversion H; subst. discriminate.
+Qed.
+
+Lemma know_sigR_inv B sk m : know B (SigR sk m) -> In (SigR sk m) B \/ know B sk.
+Proof. intros H. inversion H; subst; [left; assumption | right; assumption]. Qed.
